@@ -10,6 +10,7 @@ CONSTANTS
   StaleIndex = FALSE
   ZeroLenSlice = FALSE
   ExactFinalChunk = TRUE
+  LongSpecs <- c_LongNone
   GenPrint = FALSE
 INVARIANT AlgorithmCorrect
 INVARIANT FootprintBounded
